@@ -146,9 +146,14 @@ def image(desc: Desc, dom: Domain) -> rl.R:
         n = max(desc.pad, 1)
         if lo > 10 ** n:
             raise AnalysisError("nat domain with a large lower bound not modelled")
-        small = [str(v).zfill(desc.pad) if desc.pad else str(v) for v in range(lo, 10 ** n)]
         big = rl.Cat([rl.Cls("123456789"), rl.Rep(rl.Cls(rl.DIGITS), n, None)])
-        return rl.Alt([rl.alt_of_strings(small), big])
+        if lo == 0:
+            # every string of exactly n digits (numerals < 10**n, zero padded; n == 1: the digits themselves)
+            return rl.Alt([rl.Rep(rl.Cls(rl.DIGITS), n, n), big])
+        if n <= 3:
+            small = [str(v).zfill(desc.pad) if desc.pad else str(v) for v in range(lo, 10 ** n)]
+            return rl.Alt([rl.alt_of_strings(small), big])
+        raise AnalysisError("padded nat domain with a positive lower bound and width > 3 not modelled")
     if kind == "digits":
         min_len, nonzero = dom[1], dom[2]
         if desc.last2:
